@@ -9,32 +9,7 @@
 (* driver draws from large alphabets (IrcLineTrace.tla) and enumerate the  *)
 (* bounded product of small alphabets (MCIrcLine.tla).                     *)
 (***************************************************************************)
-EXTENDS Naturals, Sequences, TLC, Json
-
-SOH == ndJsonDeserialize("soh.ndjson")[1].c   \* the byte 0x01 (not expressible as a TLA+ literal)
-CR == "\r"
-LF == "\n"
-
------------------------------------------------------------------------------
-(* string helpers *)
-Ch(s, i) == SubSeq(s, i, i)
-RECURSIVE Cat(_)
-Cat(ss) == IF ss = <<>> THEN "" ELSE Head(ss) \o Cat(Tail(ss))
-RECURSIVE JoinWith(_, _)
-JoinWith(ss, sep) == IF ss = <<>> THEN "" ELSE IF Len(ss) = 1 THEN ss[1] ELSE ss[1] \o sep \o JoinWith(Tail(ss), sep)
-Map(s, F(_)) == Cat([i \in 1..Len(s) |-> F(Ch(s, i))])
-HasPrefix(s, p) == Len(s) >= Len(p) /\ SubSeq(s, 1, Len(p)) = p
-HasSuffix(s, p) == Len(s) >= Len(p) /\ SubSeq(s, Len(s) - Len(p) + 1, Len(s)) = p
-\* position of the first occurrence of the one-character string c in s, 0 if none
-RECURSIVE IndexFrom(_, _, _)
-IndexFrom(s, c, i) == IF i > Len(s) THEN 0 ELSE IF Ch(s, i) = c THEN i ELSE IndexFrom(s, c, i + 1)
-Index(s, c) == IndexFrom(s, c, 1)
-Spaces(n) == Cat([i \in 1..n |-> " "])
-
-Lower == <<"a","b","c","d","e","f","g","h","i","j","k","l","m","n","o","p","q","r","s","t","u","v","w","x","y","z">>
-Upper == <<"A","B","C","D","E","F","G","H","I","J","K","L","M","N","O","P","Q","R","S","T","U","V","W","X","Y","Z">>
-UpperOf(c) == IF \E i \in 1..26 : Lower[i] = c THEN Upper[CHOOSE i \in 1..26 : Lower[i] = c] ELSE c
-ToUpper(s) == Map(s, UpperOf)
+EXTENDS Strings
 
 \* the five escapes of the message-tags specification
 EscOf(c) == CASE c = ";" -> "\\:" [] c = " " -> "\\s" [] c = "\\" -> "\\\\"
